@@ -201,7 +201,23 @@ theorem view_coherent_cr (evs : List (Ev CR.Op)) (s : S CR.St)
 
 example : okHist crFamily eqB anyView anyOp ⟨[], CR.empty, true⟩
     [.view (.set (some 0) (some 10) (some 100) (some "bytes".toList)), .view (.setLength none), .refetch,
-     .view (.set (some 5) (some 2) none (some "bytes".toList)), .view .unset] = true := by
+     .view (.set (some 5) (some 2) none (some "bytes".toList)), .view .unset,
+     .view (.set none none (some 0) (some "bytes".toList)), .refetch, .view (.setLength (some 7)),
+     .view (.setLength (some 0)), .edit (fun h => (Hdr.set h "Content-Range".toList "items */0".toList).1), .refetch,
+     .view (.setUnits (some "bytes".toList))] = true := by
+  decide +kernel
+
+/-- boundary value length 0 (only valid in the unsatisfied form): it is serialised as `0`, not `*`,
+read back as 0, and the written view re-reads equal — for `set(None, None, 0)`, `length = 0` and a
+header `bytes */0` read through the property -/
+theorem cr_length_zero :
+    (CR.toHeader ⟨some "bytes".toList, none, none, some 0⟩).toOption = some "bytes */0".toList ∧
+    CR.parse "bytes */0".toList = some ⟨some "bytes".toList, none, none, some 0⟩ ∧
+    CR.parse "bytes */*".toList = some ⟨some "bytes".toList, none, none, none⟩ ∧
+    CR.load (CR.write [] ⟨some "bytes".toList, none, none, some 0⟩).1 = ⟨some "bytes".toList, none, none, some 0⟩ ∧
+    (CR.step ⟨some "bytes".toList, none, none, some 7⟩ (.setLength (some 0))).st = ⟨some "bytes".toList, none, none, some 0⟩ ∧
+    (CR.step CR.empty (.set none none (some 0) (some "bytes".toList))).st = ⟨some "bytes".toList, none, none, some 0⟩ ∧
+    CR.valid (some 0) (some 1) (some 0) = false := by
   decide +kernel
 
 /-- www_authenticate (as repaired: `type`, `token`, `parameters` reach their setters) -/
@@ -365,8 +381,10 @@ theorem repaired_regressions :
     (next authFamily ⟨[], Auth.default, true⟩ (.view (.setToken (some "xyz".toList)))).h
       = [("WWW-Authenticate".toList, "Basic xyz".toList)] ∧
     -- F16e (repaired by 78ff821): `w.type = "Basic"` is stored lower-cased and re-reads equal
-    (let s := next authFamily ⟨[], ⟨"bearer".toList, [], some "abc".toList⟩, true⟩ (.view (.setType "Basic".toList))
-     s.v.type = "basic".toList ∧ Auth.load s.h = s.v) := by
+    (next authFamily ⟨[], ⟨"bearer".toList, [], some "abc".toList⟩, true⟩ (.view (.setType "Basic".toList))).v.type
+      = "basic".toList ∧
+    Auth.load (next authFamily ⟨[], ⟨"bearer".toList, [], some "abc".toList⟩, true⟩ (.view (.setType "Basic".toList))).h
+      = (next authFamily ⟨[], ⟨"bearer".toList, [], some "abc".toList⟩, true⟩ (.view (.setType "Basic".toList))).v := by
   decide +kernel
 
 /-! ## typed get / set of the scalar properties -/
